@@ -86,6 +86,12 @@ fn apply_ops(st: &mut St, ops: &[&str]) -> Result<(), String> {
                 // set directly
                 set_setting(st, &f);
             }
+            ["s", _w, r] => {
+                // save and reopen: the tiles become reader-backed
+                let old = std::mem::replace(st, fresh(*r == "a"));
+                let b = write_bytes(old)?;
+                *st = reopen(*r == "a", b, FULL)?;
+            }
             _ => return Err(format!("unsupported op {o}")),
         }
     }
@@ -126,7 +132,10 @@ fn set_setting(st: &mut St, f: &[&str]) {
     }
 }
 fn write_bytes(st: St) -> Result<Vec<u8>, String> {
-    let (r, core) = write_to(st, Core::new(Vec::new(), 0));
+    // the sink accepts a varying number of bytes per write call (a writer may legally do so, C13)
+    let mut sink = Core::new(Vec::new(), 0);
+    sink.sched = crate::streams::Schedule { chunks: vec![65_536, 7, 1 << 20, 3, 4096], pend: vec![] };
+    let (r, core) = write_to(st, sink);
     match r {
         Err(_) => Err("to_writer panicked".into()),
         Ok(Err(e)) => Err(format!("to_writer failed: {e}")),
@@ -1026,6 +1035,71 @@ pub fn gen(prop: &str, rng: &mut Rng, quick: bool, st: &mut Stats) -> Option<Vec
                 }
                 st.bump("archives_steered_to_root_window");
             }
+            // archives edited after having been saved and reopened: reader-backed runs and shared contents with an
+            // in-memory tile placed between them, removals inside runs, re-adds
+            for k in 0..(if quick { 10 } else { 80 }) {
+                let (w, r) = fam(k);
+                let m = &w[..1];
+                let base = rng.below(1 << 30);
+                let mut ops = vec![format!("c:{}", comp_tok(ALL_COMP[k % 4]))];
+                let blob = |rng: &mut Rng| hex_bytes(&rng.bytes_range(1, 40));
+                let (ca, cb, cc) = (blob(rng), blob(rng), blob(rng));
+                // a run of 5, a gap, two separated ids sharing the run's content, a second run
+                for i in 0..5 {
+                    ops.push(format!("a:{:x}:{ca}", base + i));
+                }
+                ops.push(format!("a:{:x}:{ca}", base + 9));
+                ops.push(format!("a:{:x}:{cb}", base + 10));
+                ops.push(format!("a:{:x}:{ca}", base + 11));
+                for i in 20..24 {
+                    ops.push(format!("a:{:x}:{cb}", base + i));
+                }
+                ops.push(format!("s:{m}:{m}"));
+                match k % 5 {
+                    0 => ops.push(format!("a:{:x}:{cc}", base + 2)),
+                    1 => {
+                        ops.push(format!("a:{:x}:{cc}", base + 10));
+                        ops.push(format!("a:{:x}:{cc}", base + 21));
+                    }
+                    2 => ops.push(format!("r:{:x}", base + 3)),
+                    3 => {
+                        ops.push(format!("a:{:x}:{cc}", base + 6));
+                        ops.push(format!("a:{:x}:{ca}", base + 5));
+                    }
+                    _ => {
+                        ops.push(format!("a:{:x}:{cc}", base + 1));
+                        ops.push(format!("s:{m}:{m}"));
+                        ops.push(format!("a:{:x}:{ca}", base + 1));
+                    }
+                }
+                if prop == "C01" {
+                    c.push(format!("chk_roundtrip {w} {r} {}", ops.join(";")));
+                } else {
+                    c.push(format!("chk_valid {w} {}", ops.join(";")));
+                }
+                st.bump("archives_edited_after_reopen");
+            }
+            // metadata far larger than any internal buffer (sync and async, every codec)
+            for (k, size) in [70_000usize, 150_000, 400_000].iter().enumerate() {
+                for (j, comp) in ALL_COMP.iter().enumerate() {
+                    if quick && (k + j) % 2 == 0 && *size != 400_000 {
+                        continue;
+                    }
+                    let (w, r) = fam(k + j);
+                    let mut text = String::with_capacity(*size);
+                    while text.len() < *size {
+                        text.push(char::from(b'a' + (rng.next() % 26) as u8));
+                    }
+                    let json = format!("{{\"k\":\"{text}\"}}");
+                    let ops = format!("c:{};m:{};a:3:0102", comp_tok(*comp), hex_bytes(json.as_bytes()));
+                    if prop == "C01" {
+                        c.push(format!("chk_roundtrip {w} {r} {ops}"));
+                    } else {
+                        c.push(format!("chk_valid {w} {ops}"));
+                    }
+                    st.bump("archives_with_large_metadata");
+                }
+            }
             // one model-compared archive with leaf directories (None codec keeps it small enough)
             {
                 let ops = seeded_spill_ops(rng.next(), 4300, Compression::None);
@@ -1059,6 +1133,18 @@ pub fn gen(prop: &str, rng: &mut Rng, quick: bool, st: &mut Stats) -> Option<Vec
                     let mut h = vec![format!("o:{}:u_u:{hexb}", &r[..1])];
                     h.extend(probe_ops(&keys, rng, 40));
                     c.push(format!("hist {r} {}", h.join(";")));
+                }
+            }
+            // single directories with more entries than any plausible internal cap (2^16 and beyond)
+            for (k, n) in [65_536usize, 65_537, 70_001].iter().enumerate() {
+                if quick && k == 0 {
+                    continue;
+                }
+                let o = ForeignOpts { n: *n, depth: 0, icomp: 1 + (k % 4) as u8, permute: false, unordered: false, empty_meta: true, merge_runs: false, unknown_counts: false };
+                let f = gen_foreign(rng, &o, st);
+                if f.header.entries as usize >= *n {
+                    c.push(format!("chk_foreign {} {}", fam(k).1, hex_bytes(&f.bytes)));
+                    st.bump("foreign_directories_over_65536_entries");
                 }
             }
             for name in ["stamen_toner(raster)CC-BY+ODbL_z3.pmtiles", "protomaps(vector)ODbL_firenze.pmtiles"] {
@@ -1120,6 +1206,19 @@ pub fn gen(prop: &str, rng: &mut Rng, quick: bool, st: &mut Stats) -> Option<Vec
                         c.push(format!("hist {mode} {}", h.join(";")));
                     }
                     st.bump("histories_exhaustive");
+                }
+            }
+            // histories large enough to need leaf directories, with entry counts that do not divide evenly
+            if prop == "C04" {
+                for (k, n) in [5001usize, 4321, 8193].iter().enumerate() {
+                    if quick && k == 2 {
+                        continue;
+                    }
+                    let mode = if k % 2 == 0 { "sync" } else { "async" };
+                    let m = &mode[..1];
+                    let ops = seeded_spill_ops(rng.next(), *n, Compression::None);
+                    c.push(format!("chk_hist_map {mode} {ops};s:{m}:{m}"));
+                    st.bump("histories_with_leaf_directories");
                 }
             }
             // long random histories, optionally starting from a foreign archive
@@ -1222,6 +1321,26 @@ pub fn gen(prop: &str, rng: &mut Rng, quick: bool, st: &mut Stats) -> Option<Vec
                         st.bump("lists_near_window");
                     }
                 }
+            }
+            // lists whose serialisation lands 1 .. 10 bytes above the limit, every codec, both API families, default
+            // leaf size: the narrowest possible miss of the budget must still spill
+            for &comp in &comps {
+                for t in [16258usize, 16259, 16261, 16264, 16267] {
+                    let es = entries_for_size(rng, comp, t, st);
+                    for mode in ["sync", "async"] {
+                        c.push(format!("chk_spill {mode} {} - 0 {}", comp_tok(comp), entries_tok(&es)));
+                    }
+                    st.bump("lists_just_over_the_limit");
+                }
+            }
+            // a pointer root that would exceed 64 KiB at the first leaf sizes (sizes must not be narrowed to 16 bits)
+            for (n, ss) in [(17_000usize, "1"), (33_000, "2")] {
+                if quick && n > 17_000 {
+                    continue;
+                }
+                c.push(format!("chk_spill sync none {ss} 0 {}", entries_tok(&tiny_entries(n))));
+                c.push(format!("chk_spill async none {ss} 7f {}", entries_tok(&tiny_entries(n))));
+                st.bump("lists_with_pointer_roots_over_64k");
             }
             // 4-bytes-per-entry lists: exact control over the plain size
             for n in [4063usize, 4064, 4065, 4095, 4096, 4097] {
